@@ -25,6 +25,7 @@ def main():
     ids = a.ids or sorted(d for d in os.listdir(SEEDED) if os.path.isdir(os.path.join(SEEDED, d)))
     results_path = os.path.join(SEEDED, "results.json")
     results = json.load(open(results_path)) if os.path.exists(results_path) else {}
+    results = {k: v for k, v in results.items() if os.path.isdir(os.path.join(SEEDED, k))}   # dropped seeds
     for sid in ids:
         d = os.path.join(SEEDED, sid)
         meta = json.load(open(os.path.join(d, "meta.json")))
